@@ -21,11 +21,16 @@ struct AbsMember {
 }
 type AbsSnap = [AbsMember; NID];
 
-fn any_snap() -> AbsSnap {
+/// presence pattern is CONCRETE per harness (bit i of `bits` = node i present; self always present):
+/// with symbolic presence the symbolic execution of the map/vector stand-ins did not finish in 20 min.
+/// Addresses and data centres stay symbolic.
+fn snap(present_bits: u8, alt_bits: u8) -> AbsSnap {
     let mut s = [AbsMember { present: false, alt_addr: false, dc: 0 }; NID];
     let mut i = 0;
     while i < NID {
-        s[i] = AbsMember { present: kani::any(), alt_addr: kani::any(), dc: kani::any() };
+        let present = i == 0 || (present_bits >> i) & 1 == 1;
+        let alt = (alt_bits >> i) & 1 == 1;
+        s[i] = AbsMember { present, alt_addr: alt, dc: kani::any() };
         kani::assume(s[i].dc < 2);
         i += 1;
     }
@@ -64,7 +69,8 @@ fn pair_in(s: &AbsSnap, i: usize, t: &AbsSnap) -> bool {
 fn count_member(v: &Vec<ClusterMember>, m: &ClusterMember) -> usize {
     let mut c = 0;
     for x in v.iter() {
-        if x == m {
+        // field-wise (String equality goes through memcmp; data-centre names are one byte)
+        if x.node_id == m.node_id && x.public_addr == m.public_addr && x.data_center.as_bytes()[0] == m.data_center.as_bytes()[0] && x.data_center.len() == 1 {
             c += 1;
         }
     }
@@ -91,11 +97,9 @@ fn check_delta(d: &MembershipChange, prev: &AbsSnap, cur: &AbsSnap) {
     assert!(d.joined.len() == nj && d.left.len() == nl, "nothing else is reported");
 }
 
-#[kani::proof]
-#[kani::unwind(4)]
-fn mb_delta_step() {
-    let prev = any_snap();
-    let cur = any_snap();
+fn delta_step(prev_bits: u8, prev_alt: u8, cur_bits: u8, cur_alt: u8) {
+    let prev = snap(prev_bits, prev_alt);
+    let cur = snap(cur_bits, cur_alt);
     let mut items = Vec::new();
     items.push(build(&prev));
     items.push(build(&cur));
@@ -164,9 +168,107 @@ fn mb_delta_step() {
         d += 1;
     }
     assert!(lay.len() == ndc, "no stale data centre in the layout");
-    kani::cover!(prev[1].present && !cur[1].present && cur[2].present && !prev[2].present, "one node leaves while another joins");
-    kani::cover!(prev[1].present && cur[1].present && prev[1].alt_addr != cur[1].alt_addr, "address change");
+    if prev[1].present && cur[1].present {
+        kani::cover!(prev[1].alt_addr != cur[1].alt_addr, "address change");
+    }
+    kani::cover!(true, "transition checked");
 }
+macro_rules! delta_harness {
+    ($name:ident, $pp:expr, $pa:expr, $cp:expr, $ca:expr) => {
+        #[kani::proof]
+        #[kani::unwind(24)]
+        fn $name() {
+            delta_step($pp, $pa, $cp, $ca);
+        }
+    };
+}
+// name = mb_delta_<state of node 1><state of node 2>_<...>: 0 absent, 1 present at address A, 2 present at address B;
+// all 81 transitions of two other nodes; data centres of all three nodes symbolic
+delta_harness!(mb_delta_00_00, 0, 0, 0, 0);
+delta_harness!(mb_delta_00_01, 0, 0, 4, 0);
+delta_harness!(mb_delta_00_02, 0, 0, 4, 4);
+delta_harness!(mb_delta_00_10, 0, 0, 2, 0);
+delta_harness!(mb_delta_00_11, 0, 0, 6, 0);
+delta_harness!(mb_delta_00_12, 0, 0, 6, 4);
+delta_harness!(mb_delta_00_20, 0, 0, 2, 2);
+delta_harness!(mb_delta_00_21, 0, 0, 6, 2);
+delta_harness!(mb_delta_00_22, 0, 0, 6, 6);
+delta_harness!(mb_delta_01_00, 4, 0, 0, 0);
+delta_harness!(mb_delta_01_01, 4, 0, 4, 0);
+delta_harness!(mb_delta_01_02, 4, 0, 4, 4);
+delta_harness!(mb_delta_01_10, 4, 0, 2, 0);
+delta_harness!(mb_delta_01_11, 4, 0, 6, 0);
+delta_harness!(mb_delta_01_12, 4, 0, 6, 4);
+delta_harness!(mb_delta_01_20, 4, 0, 2, 2);
+delta_harness!(mb_delta_01_21, 4, 0, 6, 2);
+delta_harness!(mb_delta_01_22, 4, 0, 6, 6);
+delta_harness!(mb_delta_02_00, 4, 4, 0, 0);
+delta_harness!(mb_delta_02_01, 4, 4, 4, 0);
+delta_harness!(mb_delta_02_02, 4, 4, 4, 4);
+delta_harness!(mb_delta_02_10, 4, 4, 2, 0);
+delta_harness!(mb_delta_02_11, 4, 4, 6, 0);
+delta_harness!(mb_delta_02_12, 4, 4, 6, 4);
+delta_harness!(mb_delta_02_20, 4, 4, 2, 2);
+delta_harness!(mb_delta_02_21, 4, 4, 6, 2);
+delta_harness!(mb_delta_02_22, 4, 4, 6, 6);
+delta_harness!(mb_delta_10_00, 2, 0, 0, 0);
+delta_harness!(mb_delta_10_01, 2, 0, 4, 0);
+delta_harness!(mb_delta_10_02, 2, 0, 4, 4);
+delta_harness!(mb_delta_10_10, 2, 0, 2, 0);
+delta_harness!(mb_delta_10_11, 2, 0, 6, 0);
+delta_harness!(mb_delta_10_12, 2, 0, 6, 4);
+delta_harness!(mb_delta_10_20, 2, 0, 2, 2);
+delta_harness!(mb_delta_10_21, 2, 0, 6, 2);
+delta_harness!(mb_delta_10_22, 2, 0, 6, 6);
+delta_harness!(mb_delta_11_00, 6, 0, 0, 0);
+delta_harness!(mb_delta_11_01, 6, 0, 4, 0);
+delta_harness!(mb_delta_11_02, 6, 0, 4, 4);
+delta_harness!(mb_delta_11_10, 6, 0, 2, 0);
+delta_harness!(mb_delta_11_11, 6, 0, 6, 0);
+delta_harness!(mb_delta_11_12, 6, 0, 6, 4);
+delta_harness!(mb_delta_11_20, 6, 0, 2, 2);
+delta_harness!(mb_delta_11_21, 6, 0, 6, 2);
+delta_harness!(mb_delta_11_22, 6, 0, 6, 6);
+delta_harness!(mb_delta_12_00, 6, 4, 0, 0);
+delta_harness!(mb_delta_12_01, 6, 4, 4, 0);
+delta_harness!(mb_delta_12_02, 6, 4, 4, 4);
+delta_harness!(mb_delta_12_10, 6, 4, 2, 0);
+delta_harness!(mb_delta_12_11, 6, 4, 6, 0);
+delta_harness!(mb_delta_12_12, 6, 4, 6, 4);
+delta_harness!(mb_delta_12_20, 6, 4, 2, 2);
+delta_harness!(mb_delta_12_21, 6, 4, 6, 2);
+delta_harness!(mb_delta_12_22, 6, 4, 6, 6);
+delta_harness!(mb_delta_20_00, 2, 2, 0, 0);
+delta_harness!(mb_delta_20_01, 2, 2, 4, 0);
+delta_harness!(mb_delta_20_02, 2, 2, 4, 4);
+delta_harness!(mb_delta_20_10, 2, 2, 2, 0);
+delta_harness!(mb_delta_20_11, 2, 2, 6, 0);
+delta_harness!(mb_delta_20_12, 2, 2, 6, 4);
+delta_harness!(mb_delta_20_20, 2, 2, 2, 2);
+delta_harness!(mb_delta_20_21, 2, 2, 6, 2);
+delta_harness!(mb_delta_20_22, 2, 2, 6, 6);
+delta_harness!(mb_delta_21_00, 6, 2, 0, 0);
+delta_harness!(mb_delta_21_01, 6, 2, 4, 0);
+delta_harness!(mb_delta_21_02, 6, 2, 4, 4);
+delta_harness!(mb_delta_21_10, 6, 2, 2, 0);
+delta_harness!(mb_delta_21_11, 6, 2, 6, 0);
+delta_harness!(mb_delta_21_12, 6, 2, 6, 4);
+delta_harness!(mb_delta_21_20, 6, 2, 2, 2);
+delta_harness!(mb_delta_21_21, 6, 2, 6, 2);
+delta_harness!(mb_delta_21_22, 6, 2, 6, 6);
+delta_harness!(mb_delta_22_00, 6, 6, 0, 0);
+delta_harness!(mb_delta_22_01, 6, 6, 4, 0);
+delta_harness!(mb_delta_22_02, 6, 6, 4, 4);
+delta_harness!(mb_delta_22_10, 6, 6, 2, 0);
+delta_harness!(mb_delta_22_11, 6, 6, 6, 0);
+delta_harness!(mb_delta_22_12, 6, 6, 6, 4);
+delta_harness!(mb_delta_22_20, 6, 6, 2, 2);
+delta_harness!(mb_delta_22_21, 6, 6, 6, 2);
+delta_harness!(mb_delta_22_22, 6, 6, 6, 6);
+
+// native replay of Kani counterexamples (tools/replay.py writes the file)
+#[cfg(verif_replay)]
+include!("/verif/build/membership/replay_tests.rs");
 
 // native replay of Kani counterexamples (tools/replay.py writes the file)
 #[cfg(verif_replay)]
